@@ -41,7 +41,7 @@ def run(ctx):
     tlines = elines = 0
     cov = total = 0
     paths = []
-    for name, c, sample, me in [("groups2", ct2, 2500 if q else None, 600000), ("groups3", ct3, 1500 if q else 120000, 2000000)]:
+    for name, c, sample, me in [("groups2", ct2, 2500 if q else 25000, 600000), ("groups3", ct3, 1500 if q else 25000, 2000000)]:
         ps, cv, tt, rt = srvfam.behaviours_tour(ctx, c, name, sample_edges=sample, max_edges=me)
         states += rt.distinct
         trans += rt.generated
